@@ -133,6 +133,17 @@ CHECKS = {
             'uninterrupted run.',
             'Steps depend only on persisted state; checkpoints at state entry and right after construction; bounds M and '
             'families as reported in the evidence.', 'DESIGN.md 3 C08'),
+    'C17': ('history-bfs',
+            'explicit-state breadth-first search over launcher task histories replayed on a real ProcessLauncher on the '
+            'deterministic loop, for every persister / loader / delivery-path configuration',
+            'BFS (depth 2, thorough 3) over histories of create / launch / continue / bogus tasks - continue targets: '
+            'checkpoints saved by the harness at two boundaries under two tags, processes created or launched earlier in '
+            'the history, a missing tag, an unknown pid - for persister {none, in-memory, pickle} x loader {default, custom '
+            'counting} x {awaiting the launcher directly, LoopCommunicator.task_send}; after every task: reply (pid / outputs '
+            '/ error / TaskRejected), what was constructed, which steps ran and how often, what was persisted, whether the '
+            'reply of a nowait task preceded termination, whether the configured loader was used.',
+            'A communicator thread is modelled by loop callbacks; canonical state (persisted keys with what remains to run) '
+            'is only used to prune.', 'DESIGN.md 3 C17'),
     'C18': (SCHED, SCHED_TECH,
             'Scenarios of 1-3 concurrently stepping processes (plain, launching a child from a step, executing a child '
             're-entrantly inside a step through the nested run_until_complete) with async steps on environment gates, '
